@@ -30,6 +30,15 @@ CHECKS = {
         note="integral-domain rewriting (r prime), Schwartz-Zippel over the separation challenge, "
              "bounded-quotient LIA encoding; satisfiability direction only at the honest witness of 2^w-1",
         tech="constraint extraction from the real composer + symbolic row semantics + SMT (z3 LIA/NIA)"),
+    "C10": dict(
+        cat="other", ref="§5 C10",
+        text="Bounded solver verdict per pair count and operation: gates extracted from the real "
+             "append_logic_and/xor; a row lemma proven from the REAL logic widget terms (row <=> quads in 0..3, "
+             "product wire = A*B, output quad = A op B); z3 shows rows => digit-wise AND/XOR relation over the "
+             "integers and final accumulators = inputs mod 4^P, for ALL values of inputs and internal wires.",
+        note="digit-wise quad relation => bitwise operation is the base-4 definition (tied to bit-vector ops by "
+             "the solver for P<=4); range sub-blocks replaced by re-proven summaries; solver-checked bound lemmas",
+        tech="constraint extraction from the real composer + symbolic row semantics + SMT (z3 LIA/NIA)"),
     "C11": dict(
         cat="other", ref="§5 C11",
         text="Bounded solver verdict per width: gates extracted from the real component_truncate / "
